@@ -22,7 +22,7 @@ RULE = ('A generated ledger (G1, either attribution mode, load factor 4 in a thi
         'Non-trivial = document with >= 3 directives, target neither first nor last token, new text of different length or with a line break.')
 ASSUMPTIONS = ['an assignment that raises (text outside the class\'s language) ends the program; refusals are C19\'s subject']
 SHRINK_LISTS = ('ops', 'dirs')
-REQUIRED_CLASSES = ('kind:value', 'kind:raw', 'kind:indent', 'lf:4', 'tok:BLOCK_COMMENT', 'tok:ESCAPED_STRING', 'tok:INDENT', 'zero-width-target')
+REQUIRED_CLASSES = ('kind:value', 'kind:raw', 'kind:indent', 'respelling', 'lf:4', 'tok:BLOCK_COMMENT', 'tok:ESCAPED_STRING', 'tok:INDENT', 'zero-width-target')
 
 
 def run_case(case: dict) -> Result:
@@ -71,6 +71,8 @@ def _run(case: dict, res: Result) -> Result:
         kind = op['kind']
         classes.add('kind:' + kind)
         classes.add('tok:' + op['cls'])
+        if op.get('respell'):
+            classes.add('respelling')
         if texts[i] == '':
             classes.add('zero-width-target')
         key = f"{op['cls']}:{kind}"
@@ -101,6 +103,9 @@ def _run(case: dict, res: Result) -> Result:
                 res.bad(f'enclosing-print:{key}', f'{op}: enclosing {type(m).__name__} prints {got_m!r}, expected {exp_m!r}')
                 break
         if res.violations:
+            break
+        if kind in ('raw', 'indent') and t.raw_text != op['t'] and kind == 'raw':
+            res.bad(f'raw-text-not-assigned:{key}', f'{op}: the token\'s raw_text is {t.raw_text!r} after assigning {op["t"]!r}')
             break
         if kind == 'value':
             v = a.ref['value']
